@@ -301,7 +301,7 @@ func dropBar(sc *h.Scenario, b int) {
 	sc.Initial = init
 	usesBar := func(op h.Op) bool {
 		switch op.K {
-		case h.OpWrite, h.OpRefresh, h.OpCloseDelay, h.OpCancel, h.OpShutdown, h.OpSleep, h.OpReadNotifier, h.OpWait, h.OpJoin, h.OpFair, h.OpJoinFirst:
+		case h.OpWrite, h.OpRefresh, h.OpCloseDelay, h.OpCancel, h.OpShutdown, h.OpSleep, h.OpReadNotifier, h.OpWait, h.OpJoin, h.OpFair, h.OpJoinFirst, h.OpCloseRefresh:
 			return false
 		}
 		return op.Bar == b
